@@ -153,7 +153,7 @@ def mutants_of(d, idx):
     if d.copy == 'zero':
         cur = max([int(r[6:-1]) for r in d.reprs if r.startswith('align(')] + [1])
         out.append(('repr-align', False, clone(d, mod('repr-align'), reprs=[r for r in d.reprs if not r.startswith('align(')] + ['align(%d)' % max(32, cur * 2)])))
-        if d.kind == 'enum' and any(v.fields for v in d.variants) and 'u8' not in d.reprs:
+        if d.kind == 'enum' and any(v.fields for v in d.variants) and not any(r in ('u8', 'u16', 'u32', 'u64', 'i8', 'i16', 'i32', 'i64') for r in d.reprs):
             out.append(('repr-int', False, clone(d, mod('repr-int'), reprs=d.reprs + ['u16'])))
     return out
 
